@@ -7,6 +7,7 @@ CONSTANTS
   Labs = {"l1"}
   Cmts = {"none"}
   Pads = {0}
+  Exts = {"x0"}
   MaxRules = 1000
   MaxForkRules = 1000
   MaxCommits = 1000
